@@ -306,4 +306,59 @@ Qed.
 Theorem cg_bounded_invalid fuel s k fr x m1 inf : valid_bounds O lo hi x = false ->
   let r := cg_bounded O cost grad norm2 osqrt isfinite fuel s k fr lo hi x m1 inf in r_status r = MInvalidBounds /\ r_log r = [] /\ r_x r = x.
 Proof. intros Hv. unfold cg_bounded. rewrite Hv. cbn. repeat split. Qed.
+
+(* ================= the unbounded conjugate-gradient driver: reported cost and iteration count ================= *)
+Definition uinv (q : cg_state (T:=T)) : Prop := 0 <= q_it q /\ (1 <= q_utd q -> q_cost q = cost (q_x q)).
+Definition upost (s : cgsettings (T:=T)) (it0 : Z) (r : result (T:=T)) : Prop :=
+  (r_status r <> MOutOfFuel -> r_cost r = cost (r_x r)) /\ (it0 <= r_iter r /\ (it0 < g_max_it s -> r_iter r <= g_max_it s)).
+Definition ustep_post (s : cgsettings (T:=T)) (it : Z) (r : result (T:=T) + cg_state (T:=T)) : Prop :=
+  match r with inl r => upost s it r | inr q' => uinv q' /\ q_it q' = it + 1 /\ q_it q' < g_max_it s end.
+Lemma ufinish_post s st q it0 : q_cost q = cost (q_x q) -> it0 <= q_it q -> (it0 < g_max_it s -> q_it q <= g_max_it s) -> upost s it0 (cg_finish cost s st q).
+Proof.
+  intros Hc Hi1 Hi2. unfold cg_finish, cg_refresh.
+  destruct (q_utd q <? g_ensure s); [destruct (0 <? g_ensure s)|]; unfold upost; cbn; (refine (conj (fun _ => _) (conj Hi1 Hi2)); first [reflexivity|exact Hc]).
+Qed.
+Lemma cgu_step_spec s k fr nx q : uinv q -> ustep_post s (q_it q) (cgu_step O cost grad norm2 osqrt isfinite s k fr nx q).
+Proof.
+  intros (Hit & Hc). unfold cgu_step.
+  set (need := q_utd q <? 1).
+  set (cf := if need then cost (q_x q) else q_cost q).
+  assert (Hcf : cf = cost (q_x q)).
+  { unfold cf, need. destruct (Z.ltb_spec (q_utd q) 1) as [_|E]; [reflexivity|apply Hc; exact E]. }
+  set (g := if need then grad (q_x q) else q_gradient q).
+  set (start := if q_it q =? 0 then cf else q_start q).
+  destruct (negb (isfinite cf)); [cbn [ustep_post]; apply ufinish_post; cbn; [exact Hcf|lia|lia]|].
+  destruct (any_nonfinite isfinite g); [cbn [ustep_post]; apply ufinish_post; cbn; [exact Hcf|lia|lia]|].
+  destruct (oleb O (norm2 g) (g_thr s)); [cbn [ustep_post]; apply ufinish_post; cbn; [exact Hcf|lia|lia]|].
+  cbn [q_x q_it q_step q_utd q_samples q_last_restart q_start q_prev q_dir q_restart].
+  match goal with |- context [line_search O cost grad norm2 osqrt isfinite s k None (q_x q) ?d] => set (dir := d) end.
+  set (o := line_search O cost grad norm2 osqrt isfinite s k None (q_x q) dir (q_step q) (g_curv s) (oneg O (o1 O)) cf g 1 _ []).
+  assert (Ho : post (fun _ : list T => True) o).
+  { apply (line_search_spec s k None (q_x q) dir (q_step q) (g_curv s) (oneg O (o1 O)) cf (fun _ => True)); [exact I|intros; exact I|exact Hcf|constructor]. }
+  destruct Ho as (_ & _ & Ho3).
+  match goal with |- ustep_post _ _ (let '(status, restart5) := ?p in _) => destruct p as [status restart5] end.
+  set (it' := q_it q + 1).
+  match goal with |- ustep_post _ _ (match ?st' with MNotYetConverged => inr ?q3 | _ => _ end) => set (q3' := q3); set (stf := st') end.
+  assert (Hfin : forall st'', upost s (q_it q) (cg_finish cost s st'' q3')).
+  { intros st''. apply ufinish_post; cbn; [exact Ho3|unfold it'; lia|unfold it'; lia]. }
+  destruct stf eqn:Est'; cbn [ustep_post]; try apply Hfin.
+  unfold stf in Est'. destruct status; try discriminate Est'. destruct (g_max_it s <=? it') eqn:Emax; try discriminate Est'. apply Z.leb_gt in Emax.
+  refine (conj _ (conj eq_refl Emax)). unfold uinv; cbn. split; [unfold it'; lia|intros _; exact Ho3].
+Qed.
+Theorem cg_unbounded_spec fuel s k fr x m1 inf :
+  let r := cg_unbounded O cost grad norm2 osqrt isfinite fuel s k fr x m1 inf in
+  (r_status r <> MOutOfFuel -> r_cost r = cost (r_x r)) /\ (0 < g_max_it s -> 0 <= r_iter r <= g_max_it s).
+Proof.
+  intros r. unfold r, cg_unbounded.
+  match goal with |- context [cgu_loop _ _ _ _ _ _ fuel s k fr ?nx ?q0] => set (nx0 := nx); set (q00 := q0) end.
+  assert (H : forall fuel' q, uinv q -> upost s (q_it q) (cgu_loop O cost grad norm2 osqrt isfinite fuel' s k fr nx0 q)).
+  { intros fuel'. induction fuel' as [|fuel' IH]; intros q Hq.
+    - destruct Hq as (Hit & Hc). cbn. unfold upost, cg_result; cbn. refine (conj _ (conj (Z.le_refl _) (fun H => Z.lt_le_incl _ _ H))). intros H; contradiction H; reflexivity.
+    - cbn [cgu_loop]. pose proof (cgu_step_spec s k fr nx0 q Hq) as Hs.
+      destruct (cgu_step O cost grad norm2 osqrt isfinite s k fr nx0 q) as [r1|q']; [exact Hs|].
+      destruct Hs as (Hq' & Ei & Em). destruct (IH q' Hq') as (R3 & R4 & R5).
+      unfold upost. refine (conj R3 (conj _ _)); [lia|intros _; apply R5; exact Em]. }
+  destruct (H fuel q00) as (R3 & R4 & R5); [unfold uinv, q00; cbn; split; [lia|intros E; lia]|].
+  cbn [q_it q00] in R4, R5. split; [exact R3|intros Hm; split; [exact R4|apply R5; exact Hm]].
+Qed.
 End MinimCGProofs.
